@@ -13,6 +13,7 @@ oracle:  model-free: every body line carries a unique token; in the binary's vis
 """
 import json
 import os
+import re
 import sys
 from concurrent.futures import ThreadPoolExecutor
 
@@ -32,29 +33,80 @@ def expected_text(k, t, cfg):
     return body
 
 
+SUB_RE = re.compile(r"^Subproject commit ([0-9a-f]{40})(-dirty)?$")
+
+
+def short_form_hunk(h):
+    """a hunk that delta renders in its submodule short form: the line directly after the hunk header is
+    `-Subproject commit <40 hex>[-dirty]` (src/handlers/submodule.rs; known finding F33)"""
+    k, t = h["body"][0]
+    return k == "-" and SUB_RE.match(t) is not None
+
+
+def line_token(t):
+    m = SUB_RE.match(t)
+    if m:
+        return m.group(1)
+    toks = [w for w in t.replace("\t", " ").split(" ") if w.startswith("T") and w.endswith("q") and w[1:-1].isdigit()]
+    return toks[0] if toks else None
+
+
+def expected_occurrences(d, cfg):
+    """[(token, expected row text, input line)] in the order the property asks for: every hunk line once;
+    in a merge-conflict region the ancestor lines once per comparison (ancestor/ours, ancestor/theirs)"""
+    occ = []
+    for sec in d["sections"]:
+        for h in sec["hunks"]:
+            body = h["body"]
+            if h.get("items"):
+                for it in h["items"]:
+                    if it[0] == "line":
+                        k, t = body[it[1]]
+                        occ.append((line_token(t), expected_text(k, t, cfg), k + t))
+                        continue
+                    reg = it[1]
+                    for idxs, mark in ((reg["anc"], "-"), (reg["ours"], "+"), (reg["anc"], "-"), (reg["theirs"], "+")):
+                        for ix in idxs:
+                            k, t = body[ix]
+                            # inside a region the two marker columns are removed; with markers requested
+                            # the comparison's own marker is shown
+                            occ.append((line_token(t), (mark if cfg.keep else "") + gdiff.expand(t, cfg), k + t))
+            else:
+                short = short_form_hunk(h)
+                for k, t in body:
+                    occ.append((line_token(t), expected_text(k, t, cfg), k + t, short))
+    return occ
+
+
 def oracle(d, cfg, rows):
     """model-free check of the property on the visible rows. returns list of reasons"""
-    why = []
+    why_all, why_short = [], []
     pos = 0
+    occ = expected_occurrences(d, cfg)
+    n_expected = {}
+    occ = [o if len(o) == 4 else o + (False,) for o in occ]
+    for tokv, _, _, _ in occ:
+        n_expected[tokv] = n_expected.get(tokv, 0) + 1
+    seen = {}
     # rows are searched sequentially: tokens must appear in input order
-    for si, sec in enumerate(d["sections"]):
-        for h in sec["hunks"]:
-            for k, t in h["body"]:
-                tokens = [w for w in t.replace("\t", " ").split(" ") if w.startswith("T") and w.endswith("q") and w[1:-1].isdigit()]
-                tokv = tokens[0]
-                hits = [i for i, r in enumerate(rows) if tokv in r]
-                if len(hits) == 0:
-                    why.append(f"line {k + t!r} does not appear")
-                    continue
-                if len(hits) > 1:
-                    why.append(f"line {k + t!r} appears {len(hits)} times")
-                i = hits[0]
-                if i < pos:
-                    why.append(f"line {k + t!r} appears out of order (row {i} before row {pos})")
-                pos = max(pos, i)
-                want = expected_text(k, t, cfg).rstrip(" ")
-                if rows[i] != want:
-                    why.append(f"text altered: row {rows[i]!r} expected {want!r}")
+    for tokv, want, src, short in occ:
+        why = why_short if short else why_all
+        hits = [i for i, r in enumerate(rows) if tokv in r]
+        nth = seen.get(tokv, 0)
+        seen[tokv] = nth + 1
+        if nth == 0 and len(hits) != n_expected[tokv]:
+            why.append(f"line {src!r} " + ("does not appear" if not hits else f"appears {len(hits)} times") +
+                       (f" (expected {n_expected[tokv]}: once per comparison)" if n_expected[tokv] > 1 else ""))
+        if nth >= len(hits):
+            continue
+        i = hits[nth]
+        if i < pos:
+            why.append(f"line {src!r} appears out of order (row {i} before row {pos})")
+        pos = max(pos, i)
+        want = want.rstrip(" ")
+        if rows[i] != want:
+            why.append(f"text altered: row {rows[i]!r} expected {want!r}")
+    why = why_all
     # section containment: the header row of file j lies after every line of files < j and
     # before every line of file j
     if not cfg.color_only:
@@ -65,7 +117,9 @@ def oracle(d, cfg, rows):
             last = None
             for h in sec["hunks"]:
                 for k, t in h["body"]:
-                    tokv = [w for w in t.replace("\t", " ").split(" ") if w.startswith("T") and w.endswith("q")][0]
+                    tokv = line_token(t)
+                    if tokv is None:
+                        continue
                     for i, r in enumerate(rows):
                         if tokv in r:
                             first = i if first is None else min(first, i)
@@ -84,16 +138,16 @@ def oracle(d, cfg, rows):
                 search_from = hrow + 1
             if last is not None:
                 last_tok_row = max(last_tok_row, last)
-    return why
+    return why_all, why_short
 
 
 def header_text(sec):
     k = sec["kind"]
     if k in ("mod", "modemod", "mode"):
         return sec["new"]
-    if k in ("add", "empty"):
+    if k in ("add", "empty", "subadd"):
         return "added: " + sec["new"]
-    if k == "del":
+    if k in ("del", "subdel"):
         return "removed: " + sec["old"]
     if k == "diffu":
         return f"{sec['old']} {gdiff.ARROW} {sec['new']}"
@@ -112,6 +166,48 @@ def header_rows(sec, rows, start=0):
     t = header_text(sec).rstrip(" ")
     return [i for i, r in enumerate(rows) if i >= start and (r == t or r.startswith(t + " ("))
             and i + 1 < len(rows) and rows[i + 1].startswith("─")]
+
+
+def conflict_model_rows(vm, d, cfg, rows):
+    """rows the merge-conflict model (MergeConflict.v, extracted) predicts for the body of a one-hunk
+    combined diff, against the binary's rows after the hunk-header box; returns a mismatch description or None"""
+    h = d["sections"][0]["hunks"][0]
+    lines = [k + t for k, t in h["body"]]
+    rep = vm.ask("merge_run", ",".join(vlib.hexs(l) for l in lines)).split("\t")
+    if rep[0] != "OK" or rep[1] != "out":
+        return "model: " + "\t".join(rep)[:200]
+    rule = [i for i, r_ in enumerate(rows) if r_.startswith("─")]
+    if not rule:
+        return "no file header in the output"
+    start = rule[0] + 1
+    # the hunk-header box is drawn with the first ordinary hunk line; a hunk that begins with a region has none
+    if start + 3 < len(rows) and rows[start] == "" and rows[start + 1].endswith("┐") and rows[start + 3].endswith("┘"):
+        start += 4
+    got = rows[start:]
+    want = []
+    for ent in (rep[2].split(";") if len(rep) > 2 and rep[2] else []):
+        f = ent.split(":")
+        if f[0] == "B":
+            want.append(("bar", None))
+        elif f[0] in ("Ho", "Ht", "Ha"):
+            want += [("box", "┐"), ("box", "│"), ("box", "┘")]
+        else:
+            t = bytes.fromhex(f[1]).decode("utf-8", "replace")
+            if f[0] == "L":
+                want.append(("text", (t[:2] + gdiff.expand(t[2:], cfg)).rstrip(" ")))
+            else:
+                mark = ("-" if f[0] == "M" else "+") if cfg.keep else ""
+                want.append(("text", (mark + gdiff.expand(t[2:], cfg)).rstrip(" ")))
+    if len(want) != len(got):
+        return f"model predicts {len(want)} rows, binary shows {len(got)}"
+    for (kind, w), g in zip(want, got):
+        if kind == "bar" and not (g and len(set(g)) == 1 and g[0] in "▼▲"):
+            return f"expected a conflict bar, got {g!r}"
+        if kind == "box" and not g.endswith(w):
+            return f"expected a comparison header box row ending in {w}, got {g!r}"
+        if kind == "text" and g != w:
+            return f"expected {w!r}, got {g!r}"
+    return None
 
 
 def gen_cases(tier, seed):
@@ -134,6 +230,24 @@ def gen_cases(tier, seed):
         tok = gdiff.Tok()
         secs = [gdiff.gen_section(r, tok, kind=r.choice(["cc", "cc", "mod"])) for _ in range(r.randint(1, 3))]
         cases.append(("combined", {"pre": gdiff.gen_log_wrapper(r) if r.random() < 0.5 else [], "sections": secs}, gdiff.rand_cfg(r, color_only=False)))
+    # submodule pointer changes (short format) among ordinary files, and ordinary lines that look like them
+    for i in range(n // 10):
+        r = vlib.case_rng(seed, PID, ("submodule", i))
+        tok = gdiff.Tok()
+        secs = [gdiff.gen_section(r, tok, kind=r.choice(["sub", "subadd", "subdel", "subnear", "subnear", "mod"])) for _ in range(r.randint(1, 4))]
+        cases.append(("submodule", {"pre": [], "sections": secs}, gdiff.rand_cfg(r, color_only=False)))
+    # combined diffs of conflicted merges: conflict regions with / without an ancestor section, several per
+    # hunk, hunk and file (stale buffers would show); every second stream is one hunk, compared with the model
+    for i in range(n // 4):
+        r = vlib.case_rng(seed, PID, ("conflict", i))
+        tok = gdiff.Tok()
+        if i % 2 == 0:
+            sec = gdiff.gen_section(r, tok, kind="ccconf")
+            sec["hunks"] = sec["hunks"][:1]
+            secs = [sec]
+        else:
+            secs = [gdiff.gen_section(r, tok, kind=r.choice(["ccconf", "ccconf", "ccconf", "cc", "mod"])) for _ in range(r.randint(1, 3))]
+        cases.append(("conflict", {"pre": [], "sections": secs}, gdiff.rand_cfg(r, color_only=False)))
     # small-scope sweep: every hunk body over {ctx,-,+}^<=L x buffer sizes x next-section kind
     import itertools
     L = 4 if tier == "quick" else 6
@@ -167,7 +281,7 @@ def main(tier, replay=None):
         chk.oblige("build:delta-with-hooks", False, out[-2000:])
         return chk.finish()
     vlib.build_native()
-    vlib.standard_proof_obligations(chk, "PropC01", gen_names=("counter",))
+    vlib.standard_proof_obligations(chk, "PropC01", gen_names=("counter", "merge"))
     ok, out = vlib.build_vmodel()
     if not ok:
         chk.oblige("build:vmodel", False, out[-2000:])
@@ -180,7 +294,9 @@ def main(tier, replay=None):
     else:
         cases = gen_cases(tier, chk.seed)
     chk.rule = ("generated git diffs (1-4 file sections of every kind, 1-3 hunks, runs of context/removed/added lines, "
-                "marker-like contents, tabs, Unicode) x unified-view options (width, tabs, markers, buffer size), plus a "
+                "marker-like contents, tabs, Unicode) x unified-view options (width, tabs, markers, buffer size), plain `diff -u` streams, "
+                "combined diffs, combined diffs with merge-conflict regions (with / without ancestor sections, several per hunk and file), "
+                "submodule sections and look-alike lines, plus a "
                 "sweep of all short hunk shapes x buffer size x kind of the following section; non-trivial = >= 2 sections "
                 "or a hunk with both removed and added lines")
 
@@ -190,6 +306,7 @@ def main(tier, replay=None):
     with ThreadPoolExecutor(max_workers=vlib.NCPU) as ex:
         reals = list(ex.map(real, cases))
     mism = 0
+    mism_conf = n_conf = 0
     for (kind, d, cfg), (rc, rows, err) in zip(cases, reals):
         lines = gdiff.diff_lines(d)
         chk.count(kind)
@@ -198,11 +315,19 @@ def main(tier, replay=None):
         nontriv = len(d["sections"]) >= 2 or any(
             {"-", "+"} <= {c_ for k, _ in h["body"] for c_ in k} for s in d["sections"] for h in s["hunks"])
         chk.case((tuple(lines), cfg.key()), nontriv, {"cfg": cfg.as_dict(), "input": lines[:14], "n_lines": len(lines)})
-        if not cfg.color_only and kind not in ("diff-u", "combined"):
+        if not cfg.color_only and kind not in ("diff-u", "combined", "conflict", "submodule"):
             sd = vm.ask("delta_sides", cfg.tabs, cfg.B, ",".join(vlib.hexs(l) for l in lines))
             chk.count("theorem_side_condition:" + sd)
         # the line state machine model covers git's output; plain `diff -u` streams are decided by the oracle alone
-        m = gdiff.render_items(gdiff.model_items(vm, lines, cfg), cfg) if kind not in ("diff-u", "combined") else rows
+        m = gdiff.render_items(gdiff.model_items(vm, lines, cfg), cfg) if kind not in ("diff-u", "combined", "conflict", "submodule") else rows
+        if kind == "conflict" and rc == 0 and len(d["sections"]) == 1 and len(d["sections"][0]["hunks"]) == 1 and d["sections"][0]["kind"] == "ccconf":
+            n_conf += 1
+            bad = conflict_model_rows(vm, d, cfg, rows)
+            if bad:
+                mism_conf += 1
+                if mism_conf <= 2:
+                    vlib.log("[C01] merge-conflict correspondence mismatch " + str(cfg.as_dict()) + ": " + bad + "\nINPUT:\n" + "\n".join(lines) +
+                             "\nOUTPUT:\n" + "\n".join(rows))
         if m != rows:
             mism += 1
             if mism <= 2:
@@ -210,14 +335,22 @@ def main(tier, replay=None):
                 vlib.log("[C01] correspondence mismatch " + str(cfg.as_dict()) + "\n" +
                          "\n".join(difflib.unified_diff(m, rows, "model", "real", lineterm="", n=1)) +
                          "\nINPUT:\n" + "\n".join(lines))
-        why = [f"exit status {rc}: {rows}"] if rc != 0 else oracle(d, cfg, rows)
+        why, why_short = ([f"exit status {rc}: {rows}"], []) if rc != 0 else oracle(d, cfg, rows)
         if why:
             chk.violation({"property": PID, "why": "; ".join(why[:4]), "cfg": cfg.as_dict(), "diff": d,
                            "input": "\n".join(lines), "args": cfg.args(), "output_rows": rows[:80],
                            "kinds": [s["kind"] for s in d["sections"]]})
+        if why_short:
+            # lines of a hunk that starts with `-Subproject commit <sha>`: delta's submodule short form (F33)
+            chk.violation({"property": PID, "why": "; ".join(why_short[:4]), "cfg": cfg.as_dict(), "diff": d,
+                           "input": "\n".join(lines), "args": cfg.args(), "output_rows": rows[:80],
+                           "finding_class": "submodule-short-form: only lines of a hunk whose first line is `-Subproject commit <40 hex>` are affected",
+                           "kinds": [s["kind"] for s in d["sections"]]})
     chk.oblige("correspondence:state-machine-rows", mism == 0, f"{mism} of {len(cases)} diffs render differently from the model")
+    chk.oblige("correspondence:merge-conflict-rows", mism_conf == 0,
+               f"{mism_conf} of {n_conf} one-hunk conflict diffs render differently from the merge-conflict model")
     chk.extra["traces_validated_against_impl"] = len(cases) - mism
-    chk.assumptions = ["model scope: git two-way diffs, unified view, non-raw header styles; combined diffs (`diff --cc`) and plain `diff -u` streams are decided by the black-box token oracle alone (both tiers); merge-conflict regions are not generated here (C11's known finding F12 concerns them)",
+    chk.assumptions = ["model scope: git two-way diffs, unified view, non-raw header styles; combined diffs (`diff --cc`) and plain `diff -u` streams are decided by the black-box token oracle alone (both tiers); merge-conflict regions: MergeConflict.v (region state machine; `clear()` and the marker strings regenerated from the source) compared with the binary's rows on one-hunk conflict diffs, and the token oracle on all of them",
                        "grapheme clusters = scalar values on the generator's alphabet"]
     vm.close()
     return chk.finish()
